@@ -16,6 +16,17 @@ Open Scope Z_scope.
 Theorem check_no_oob : forall t, WF t -> check t <> OOB /\ check_repaired t <> OOB.
 Proof. exact check_no_oob_top. Qed.
 
+(* (a') termination of the gate on arbitrary cell values (no WF): the while loop of
+   check_tree_integrity cannot spin — after its first iteration every iteration consumes an index
+   entry or fails.  FULL for finite sequence_length (non-finite lengths are finding F14). *)
+Theorem check_terminates : forall t Lz, seqlen t = Fin Lz -> check t <> Fuel.
+Proof. exact check_terminates_top. Qed.
+
+(* (a'') the repaired gate is total: a tree count or a library error class, nothing else *)
+Theorem check_repaired_total : forall t, WF t ->
+  (exists n, check_repaired t = Ok n) \/ (exists c, check_repaired t = Err c).
+Proof. exact check_repaired_total_top. Qed.
+
 (* (b0) the per-table requirement classes (references in range, finite coordinates and times,
    0 <= left < right <= L, parent older than child, edge order and contiguity, site order and
    uniqueness, all mutation row/order/known-unknown clauses, migrations, individuals, offsets)
@@ -62,15 +73,20 @@ Theorem build_index_valid : forall t, EdgeRowsOK t -> forall t', build_index t =
   exists I O, t' = with_index t (Some (I, O)) /\ InsertionOK t I /\ RemovalOK t O.
 Proof. exact build_index_valid_lemma. Qed.
 
-(* (e') TableCollection.tree_sequence() on tables WITHOUT an index: whenever build_index's own
-   integrity call succeeds, every collection satisfying the non-index clauses is accepted.
-   PARTIAL: that build_index's call (options = EDGE_ORDERING only) succeeds on such tables is a
-   hypothesis, tied to the code by the correspondence only. *)
-Theorem gate_accepts_unindexed_partial : forall t t',
+(* (e') TableCollection.tree_sequence() on tables WITHOUT an index (has_index() false ->
+   build_index() -> gate), for the code as it is.  The built index is always a permutation, so
+   finding F1 cannot arise on this path: acceptance is equivalent to the non-index clauses, up to
+   the finiteness of sequence_length (F14).  FULL for this path. *)
+Theorem gate_unindexed_sound : forall t n z, WF t -> idx t = None -> seqlen t = Fin z ->
+  tree_sequence_gate t = Ok n ->
+  SeqlenOK t /\ RowsValid t /\ ChildIntervalsDisjoint t /\ MutBelowParentNodeOK t.
+Proof. exact gate_unindexed_sound_lemma. Qed.
+
+Theorem gate_unindexed_complete : forall t,
   WF t -> idx t = None -> SeqlenOK t -> RowsValid t -> ChildIntervalsDisjoint t ->
   MutBelowParentNodeOK t -> 2 * num_edges t + 1 < TSK_MAX_ID ->
-  build_index t = Ok t' -> exists n, tree_sequence_gate t = Ok n.
-Proof. exact gate_accepts_unindexed_lemma. Qed.
+  exists n, tree_sequence_gate t = Ok n.
+Proof. exact gate_accepts_unindexed_full. Qed.
 
 (* (d) REFUTED on the faithful model: full soundness fails for the code as it is *)
 Theorem check_sound_index_refuted :
